@@ -385,6 +385,23 @@ def r12_3(ctx, m, schema, extras):
     wf = m.worker
     loop = [n for n in wf.node.body if isinstance(n, ast.For)][0]
     rec = norm(loop.target.elts[0])
+    # formatting the record object itself runs Alignment.__str__, which stores the record's *input* CIGAR back into its tags:
+    # between the store of the new CIGAR and the emission of the tags that undoes the realignment
+    cls_ = extras.get("class")
+    str_m = ctx.repo.find_func("gaftools.gaf", f"{cls_}.__str__") if cls_ else None
+    if str_m is not None and any(isinstance(a_, ast.Assign) and isinstance(a_.targets[0], ast.Subscript) and "tags" in norm(a_.targets[0].value) for a_ in walk_own(str_m.node)):
+        for x_ in walk_own(wf.node):
+            bare = None
+            if isinstance(x_, ast.FormattedValue) and isinstance(x_.value, ast.Name) and x_.value.id == rec:
+                bare = x_
+            elif isinstance(x_, ast.Call) and norm(x_.func) in ("str", "repr", "print", "format") and any(isinstance(a_, ast.Name) and a_.id == rec for a_ in x_.args):
+                bare = x_
+            elif isinstance(x_, ast.Call) and norm(x_.func).split(".")[0] in ("logger", "logging") and any(isinstance(a_, ast.Name) and a_.id == rec for a_ in x_.args[1:]):
+                bare = x_
+            elif isinstance(x_, ast.BinOp) and isinstance(x_.op, ast.Mod) and ((isinstance(x_.right, ast.Name) and x_.right.id == rec) or (isinstance(x_.right, ast.Tuple) and any(isinstance(e_, ast.Name) and e_.id == rec for e_ in x_.right.elts))):
+                bare = x_
+            if bare is not None:
+                ctx.violated("R12.3", wf.where(bare), f"`{norm(bare)[:50]}` formats the record object itself: {cls_}.__str__ stores the record's input CIGAR back into its tag mapping, so a record formatted after the new CIGAR was stored (a log line) is written with the new match / block counts and the old CIGAR", key_of(wf, "record-formatted-in-worker"))
     P = {c: a for a, c in schema.items()}
     lead = [st for st in loop.body if not (isinstance(st, ast.Assign) and len(st.targets) == 1 and isinstance(st.targets[0], ast.Name) and not any(isinstance(x, ast.Call) and not (isinstance(x.func, ast.Name) and x.func.id in ("len", "int", "float", "abs")) for x in ast.walk(st.value)))]
     guard = lead[0] if lead and isinstance(lead[0], ast.If) else None  # (leading pure temporaries are skipped)
